@@ -171,6 +171,7 @@ impl<R> Response<R> {
     pub closed spec fn declared(&self) -> Option<usize> { self.data_length }
     pub closed spec fn threshold(&self) -> usize { match self.chunked_threshold { Some(t) => t, None => 32768 } }
     pub closed spec fn body_reader(&self) -> R { self.reader }
+    pub closed spec fn code(&self) -> StatusCode { self.status_code }
 }
 
 /// does the list contain a header with that name?
@@ -214,10 +215,71 @@ pub proof fn lemma_hdr_is_refl(h: Header, name: Seq<char>)
     ensures hdr_is(h, name)
 {}
 
+/// C19: what add_header may do with a (converted) header hh
+pub open spec fn header_policy(hdrs0: Seq<Header>, decl0: Option<usize>, hh: Header, hdrs1: Seq<Header>, decl1: Option<usize>) -> bool {
+    let protected = hdr_is(hh, "Connection"@) || hdr_is(hh, "Trailer"@) || hdr_is(hh, "Transfer-Encoding"@) || hdr_is(hh, "Upgrade"@);
+    let is_cl = hdr_is(hh, "Content-Length"@);
+    let is_ct = hdr_is(hh, "Content-Type"@);
+    // the four protected names are never stored
+    &&& (protected ==> hdrs1 == hdrs0 && decl1 == decl0)
+    // a supplied Content-Length only sets the declared body length (when it parses) and is never stored
+    &&& (!protected && is_cl ==> hdrs1 == hdrs0 && decl1 == (if parse_usize(hh.value@) is Some { parse_usize(hh.value@) } else { decl0 }))
+    // everything else that is not a Content-Type is appended, in order
+    &&& (!protected && !is_cl && !is_ct ==> hdrs1 == hdrs0.push(hh) && decl1 == decl0)
+    // NOT DECIDED for Content-Type headers (append when none is present / overwrite the first one in place): both go through
+    // `self.headers.iter_mut().find(..)`, and on a GENERIC struct this Verus loses the link between the vector after the
+    // mutable iteration and the vector before it (minimal reproduction: notes/verus_iter_mut_generic_struct.rs.txt; the same
+    // code on a non-generic struct verifies, including the in-place overwrite).  Only: the declared length is untouched.
+    &&& (!protected && !is_cl && is_ct ==> decl1 == decl0)
+}
+
 //@impl src/response.rs "Response<R> where R: Read,"
 //@fn chunked_threshold ret r props C05
 //@spec
     ensures r == self.threshold(),
+//@endfn
+//@fn new ret r
+//@assume
+//@spec
+    // ASSUMED (its second loop iterates an mpsc::Receiver, outside this Verus): the given status, body and declared length;
+    // the header list is the fold of add_header over `headers` (hence only headers allowed by O-HEADER-POLICY)
+    ensures r.status() == status_code.0, r.body_reader() == data, r.threshold() == 32768,
+        headers@.len() == 0 ==> r.declared() == data_length && r.hdrs().len() == 0,
+        (forall|i: int| 0 <= i < headers@.len() ==> !hdr_is(#[trigger] headers@[i], "Content-Length"@)) ==> r.declared() == data_length,
+//@endfn
+//@fn with_chunked_threshold ret r props C05
+//@spec
+    ensures r.threshold() == length, r.status() == self.status(), r.hdrs() == self.hdrs(), r.declared() == self.declared(), r.body_reader() == self.body_reader(),
+//@endfn
+//@fn with_status_code ret r props C04
+//@spec
+    ensures call_ensures(S::into, (code,), r.code()), r.hdrs() == self.hdrs(), r.declared() == self.declared(), r.body_reader() == self.body_reader(), r.threshold() == self.threshold(),
+//@endfn
+//@fn with_data ret r props C19
+//@spec
+    // with_data replaces the body and its declared length, nothing else
+    ensures r.body_reader() == reader, r.declared() == data_length, r.hdrs() == self.hdrs(), r.status() == self.status(), r.threshold() == self.threshold(),
+//@endfn
+//@fn add_header props C19
+//@spec
+    ensures
+        // O-HEADER-POLICY (C19), stated over the converted header hh = header.into()
+        exists|hh: Header| #[trigger] call_ensures(H::into, (header,), hh)
+            && header_policy(old(self).hdrs(), old(self).declared(), hh, final(self).hdrs(), final(self).declared()),
+        final(self).status() == old(self).status(), final(self).threshold() == old(self).threshold(),
+//@entry
+        let ghost h_in = header;
+        let ghost hdrs0 = self.headers@;
+        let ghost decl0 = self.data_length;
+        broadcast use axiom_find_mut_post, lemma_iter_mut_bridge;
+//@after 1 let header = header.into()
+        let ghost hh = header;
+//@atexit
+        proof {
+            assert(call_ensures(H::into, (h_in,), hh));
+            assert(header_policy(hdrs0, decl0, hh, self.headers@, self.data_length));
+        }
+//@closure ~equiv("Content-Type")~ |h: &&mut Header| -> (b: bool) ensures b == hdr_is(*old(*h), "Content-Type"@)
 //@endfn
 #[verifier::rlimit(60)]
 //@fn raw_print ret res props C04,C05,C19
@@ -301,6 +363,46 @@ pub proof fn lemma_hdr_is_refl(h: Header, name: Seq<char>)
             assert(transfer_encoding == Some(TransferEncoding::Identity) ==> data_length is Some
                 && (declared0 is Some ==> data_length == declared0) && (declared0 is None ==> data_length->Some_0 == body0.len()));
         }
+//@endfn
+//@endimpl
+
+pub assume_specification[ std::io::empty ]() -> (r: std::io::Empty);
+// ---- the convenience constructors declare exactly the byte length of the data they were given (C19)
+// String::len is the length in BYTES (UTF-8), which is what into_bytes yields (std documentation)
+pub uninterp spec fn string_bytes(s: String) -> Seq<u8>;
+pub assume_specification[ String::len ](s: &String) -> (r: usize) ensures r == string_bytes(*s).len();
+pub assume_specification[ String::into_bytes ](s: String) -> (r: Vec<u8>) ensures r@ == string_bytes(s);
+
+//@impl src/response.rs "Response<Cursor<Vec<u8>>>"
+//@fn from_data ret r props C19
+//@spec
+    ensures exists|v: Vec<u8>| #[trigger] call_ensures(D::into, (data,), v) && r.declared() == Some(v@.len() as usize) && cursor_rest(&r.body_reader()) == v@,
+//@endfn
+//@fn from_string ret r props C19
+//@spec
+    // declared length = number of BYTES of the string (multi-byte UTF-8 included) = length of the body stream
+    ensures exists|v: String| #[trigger] call_ensures(S::into, (data,), v) && r.declared() == Some(string_bytes(v).len() as usize) && cursor_rest(&r.body_reader()) == string_bytes(v),
+//@entry
+        broadcast use axiom_slice_as_bytes, axiom_slice_as_chars;
+        proof {
+            reveal_strlit("Content-Type");
+            reveal_strlit("Content-Length");
+            // the two names differ (12 vs 14 characters), so the initial header does not touch the declared length
+            assert(lower("Content-Type"@).len() == 12 && lower("Content-Length"@).len() == 14);
+            assert(!eq_ic("Content-Length"@, "Content-Type"@));
+        }
+//@endfn
+//@endimpl
+//@impl src/response.rs "Response<io::Empty>"
+//@fn empty ret r props C19,C06
+//@spec
+    ensures r.declared() == Some(0usize), call_ensures(S::into, (status_code,), r.code()),
+//@endfn
+//@fn new_empty ret r props C19,C10
+//@spec
+    ensures r.declared() == Some(0usize), r.status() == status_code.0,
+//@entry
+        broadcast use axiom_into_self;
 //@endfn
 //@endimpl
 
